@@ -744,6 +744,72 @@ def forms_6809_indexed():
             yield it('org %d\n\t%s %d,pcr' % (at, mn, at + L + 3 + d), op + [0x8d, (d >> 8) & 0xff, d & 0xff], S + mn.upper() + ' n16,PCR', at=at)
 
 
+def forms_68hc11():
+    """M68HC11: what it adds to the M6800 (M68HC11 Reference Manual, opcode maps pages 1-4): D and Y register instructions, bit
+    manipulation, the $18/$1A/$CD prebytes for Y-indexed and Y-register forms, JSR direct, BRN"""
+    S = '68hc11/'
+    for mn, code in (('idiv', [0x02]), ('fdiv', [0x03]), ('lsrd', [0x04]), ('asld', [0x05]), ('lsld', [0x05]), ('pulx', [0x38]), ('abx', [0x3a]), ('pshx', [0x3c]), ('mul', [0x3d]),
+                     ('xgdx', [0x8f]), ('stop', [0xcf]), ('iny', [0x18, 0x08]), ('dey', [0x18, 0x09]), ('tsy', [0x18, 0x30]), ('tys', [0x18, 0x35]), ('puly', [0x18, 0x38]),
+                     ('aby', [0x18, 0x3a]), ('pshy', [0x18, 0x3c]), ('xgdy', [0x18, 0x8f])):
+        yield it(mn, code, S + mn.upper())
+    for mn, base in (('subd', 0x83), ('addd', 0xc3), ('ldd', 0xcc)):
+        for v in (0, 1, 0x1234, 0xffff):
+            yield it('%s #%d' % (mn, v), [base, v >> 8, v & 0xff], S + mn.upper() + ' imm16')
+        for d in (0, 0xff):
+            yield it('%s %d' % (mn, d), [base | 0x10, d], S + mn.upper() + ' dir')
+        for o in (0, 255):
+            yield it('%s %d,x' % (mn, o), [base | 0x20, o], S + mn.upper() + ' idx')
+            yield it('%s %d,y' % (mn, o), [0x18, base | 0x20, o], S + mn.upper() + ' idy')
+        for a in (0x100, 0xffff):
+            yield it('%s %d' % (mn, a), [base | 0x30, a >> 8, a & 0xff], S + mn.upper() + ' ext')
+    for d in (0, 0xff):
+        yield it('std %d' % d, [0xdd, d], S + 'STD dir')
+        yield it('jsr %d' % d, [0x9d, d], S + 'JSR dir')
+    yield it('std 5,x', [0xed, 5], S + 'STD idx')
+    yield it('std 5,y', [0x18, 0xed, 5], S + 'STD idy')
+    yield it('std 4660', [0xfd, 0x12, 0x34], S + 'STD ext')
+    yield it('std #1', 'ERR', S + 'STD imm/not-allowed')
+    # the 6800 accumulator instructions through the Y index register: prebyte $18
+    for mn, op in (('ldaa', 0xa6), ('staa', 0xa7), ('ldab', 0xe6), ('stab', 0xe7), ('adda', 0xab), ('cmpb', 0xe1), ('neg', 0x60), ('clr', 0x6f), ('tst', 0x6d), ('jmp', 0x6e), ('jsr', 0xad),
+                   ('lds', 0xae), ('sts', 0xaf)):
+        for o in (0, 255):
+            yield it('%s %d,y' % (mn, o), [0x18, op, o], S + mn.upper() + ' idy')
+        yield it('%s 256,y' % mn, 'ERR', S + mn.upper() + ' idy/range')
+    # X register through Y index: prebyte $CD; Y register: $18 (imm/dir/ext/idy) and $1A (idx)
+    for v in (0, 0x1234, 0xffff):
+        yield it('ldy #%d' % v, [0x18, 0xce, v >> 8, v & 0xff], S + 'LDY imm16')
+        yield it('cpy #%d' % v, [0x18, 0x8c, v >> 8, v & 0xff], S + 'CPY imm16')
+        yield it('cpd #%d' % v, [0x1a, 0x83, v >> 8, v & 0xff], S + 'CPD imm16')
+    for mn, op in (('ldy', 0xce), ('sty', 0xcf), ('cpy', 0x8c)):
+        yield it('%s 16' % mn, [0x18, op | 0x10, 16], S + mn.upper() + ' dir')
+        yield it('%s 4660' % mn, [0x18, op | 0x30, 0x12, 0x34], S + mn.upper() + ' ext')
+        yield it('%s 7,x' % mn, [0x1a, (op | 0x20) | (0x40 if mn != 'cpy' else 0), 7] if False else [0x1a, {'ldy': 0xee, 'sty': 0xef, 'cpy': 0xac}[mn], 7], S + mn.upper() + ' idx')
+        yield it('%s 7,y' % mn, [0x18, {'ldy': 0xee, 'sty': 0xef, 'cpy': 0xac}[mn], 7], S + mn.upper() + ' idy')
+    for mn, op in (('ldx', 0xee), ('stx', 0xef), ('cpx', 0xac)):
+        yield it('%s 7,y' % mn, [0xcd, op, 7], S + mn.upper() + ' idy')
+    yield it('cpd 16', [0x1a, 0x93, 16], S + 'CPD dir')
+    yield it('cpd 4660', [0x1a, 0xb3, 0x12, 0x34], S + 'CPD ext')
+    yield it('cpd 7,x', [0x1a, 0xa3, 7], S + 'CPD idx')
+    yield it('cpd 7,y', [0xcd, 0xa3, 7], S + 'CPD idy')
+    # bit manipulation: operand, mask (, branch target)
+    for m in (1, 0x80, 0xff):
+        yield it('bset 16,#%d' % m, [0x14, 16, m], S + 'BSET dir')
+        yield it('bclr 16,#%d' % m, [0x15, 16, m], S + 'BCLR dir')
+        yield it('bset 5,x,#%d' % m, [0x1c, 5, m], S + 'BSET idx')
+        yield it('bclr 5,x,#%d' % m, [0x1d, 5, m], S + 'BCLR idx')
+        yield it('bset 5,y,#%d' % m, [0x18, 0x1c, 5, m], S + 'BSET idy')
+        yield it('bclr 5,y,#%d' % m, [0x18, 0x1d, 5, m], S + 'BCLR idy')
+    at = 0x1000
+    for dist in (-128, -1, 0, 127):
+        yield it('org %d\n\tbrset 16,#1,%d' % (at, at + 4 + dist), [0x12, 16, 1, dist & 0xff], S + 'BRSET dir', at=at)
+        yield it('org %d\n\tbrclr 16,#128,%d' % (at, at + 4 + dist), [0x13, 16, 128, dist & 0xff], S + 'BRCLR dir', at=at)
+        yield it('org %d\n\tbrset 5,x,#1,%d' % (at, at + 4 + dist), [0x1e, 5, 1, dist & 0xff], S + 'BRSET idx', at=at)
+        yield it('org %d\n\tbrclr 5,y,#1,%d' % (at, at + 5 + dist), [0x18, 0x1f, 5, 1, dist & 0xff], S + 'BRCLR idy', at=at)
+        yield it('org %d\n\tbrn %d' % (at, at + 2 + dist), [0x21, dist & 0xff], S + 'BRN', at=at)
+    yield it('org %d\n\tbrset 16,#1,%d' % (at, at + 4 + 128), 'ERR', S + 'BRSET/range', at=at)
+    yield it('org %d\n\tbrclr 5,y,#1,%d' % (at, at + 5 - 129), 'ERR', S + 'BRCLR idy/range', at=at)
+
+
 ISAS = {
     '6502': dict(cpu='6502', gen=forms_6502, slot=8),
     '8080': dict(cpu='8080', gen=forms_8080, slot=8),
@@ -757,4 +823,5 @@ ISAS = {
     '8051': dict(cpu='8051', gen=forms_8051, slot=4),
     '6800': dict(cpu='6800', gen=forms_6800, slot=4),
     '6809-indexed': dict(cpu='6809', gen=forms_6809_indexed, slot=8),
+    '68hc11': dict(cpu='6811', gen=forms_68hc11, slot=8),
 }
